@@ -128,17 +128,17 @@ RangeMatch(c, e, x, accOk) ==
   /\ JJ({"C11", "C14", "C18", "C19"}, CntEq(c, e, x.st))
 
 TrInsertRange(c, t, s, e) ==
-  LET F == FoldInsert(Strict, c, t, {[st |-> RangeStart(c, s), acc |-> 0]}, KvOf(c, e), e.a, 1)
+  LET F == FoldInsert(Strict, c, t, {[st |-> z, acc |-> 0] : z \in RangeStarts(c, s)}, KvOf(c, e), e.a, 1)
   IN \E x \in F : /\ RangeMatch(c, e, x, JJ({"C09", "C18"}, x.acc = e.ret))
                   /\ st' = Resync(c, e, x.st)
 
 TrEraseRange(c, t, s, e) ==
-  LET F == FoldErase(Strict, c, t, {[st |-> RangeStart(c, s), acc |-> 0]}, KsOf(e), 1)
+  LET F == FoldErase(Strict, c, t, {[st |-> z, acc |-> 0] : z \in RangeStarts(c, s)}, KsOf(e), 1)
   IN \E x \in F : /\ RangeMatch(c, e, x, JJ({"C18", "SPEC"}, x.acc = e.ret))
                   /\ st' = Resync(c, e, x.st)
 
 TrFindRange(c, t, s, e) ==
-  LET F == FoldFind(Strict, c, t, {[st |-> RangeStart(c, s), acc |-> <<>>]}, KsOf(e), e.p = 1, 1)
+  LET F == FoldFind(Strict, c, t, {[st |-> z, acc |-> <<>>] : z \in RangeStarts(c, s)}, KsOf(e), e.p = 1, 1)
   IN \E x \in F : /\ RangeMatch(c, e, x,
                         JJ({"C01", "C03", "C04", "C05", "C18"} \cup (IF c.kind \in UtKinds THEN {"C17"} ELSE {}),
                            x.acc = RlOf(e)))
